@@ -317,6 +317,21 @@ func c19Emit(fs *Facts) {
 
 	// ---- eventTimeFromClock: every Event{…} literal takes EventTime from time.Now()
 	et, etWhere, seen := Yes, c19Swamp, 0
+	// simple local definitions (name := expr / name = expr); a name that is assigned from the record's metadata
+	// anywhere counts as such
+	localDefs := map[string]string{}
+	ast.Inspect(f.AST, func(x ast.Node) bool {
+		if as, ok := x.(*ast.AssignStmt); ok && len(as.Lhs) == 1 && len(as.Rhs) == 1 {
+			if id, ok := as.Lhs[0].(*ast.Ident); ok {
+				src := f.Str(as.Rhs[0])
+				if prev, had := localDefs[id.Name]; had && (strings.Contains(prev, "GetCreatedAt()") || strings.Contains(prev, "GetModifiedAt()")) {
+					return true
+				}
+				localDefs[id.Name] = src
+			}
+		}
+		return true
+	})
 	ast.Inspect(f.AST, func(x ast.Node) bool {
 		cl, ok := x.(*ast.CompositeLit)
 		if !ok || f.Str(cl.Type) != "Event" {
@@ -328,8 +343,21 @@ func c19Emit(fs *Facts) {
 				continue
 			}
 			seen++
-			if !strings.Contains(f.Str(kv.Value), "time.Now()") {
+			val := f.Str(kv.Value)
+			if id, isId := kv.Value.(*ast.Ident); isId {
+				// one level of local assignment: `now := time.Now()…; EventTime: now`
+				if src, ok := localDefs[id.Name]; ok {
+					val = src
+				}
+			}
+			switch {
+			case strings.Contains(val, "time.Now()"):
+			case strings.Contains(val, "GetCreatedAt()") || strings.Contains(val, "GetModifiedAt()") || strings.Contains(val, "GetExpirationTime()"):
 				et, etWhere = No, c19Swamp+":"+itoa(f.Line(kv))
+			default:
+				if et == Yes {
+					et, etWhere = Unknown, c19Swamp+":"+itoa(f.Line(kv))
+				}
 			}
 		}
 		return true
